@@ -2,21 +2,41 @@
    the case files to count how many generated cases the theorems speak about).
 
    [in_fragment_C15 p] holds when the module [p] uses none of the constructs on which rope's scope
-   construction departs from CPython.  Each clause below is one such departure; each has a [_refuted]
-   lemma in RopeScopesProofs.v whose witness is replayed against the real library on every run
-   (findings.d/C15.json), and a structural signature in harness/c15.py:
-     - positional-only / keyword-only parameters                      (param_ok)
-     - nonlocal declarations                                          (SNonlocal)
-     - a name bound in a scope only by augmented assignment or del    (block_ok, first clause)
-     - a global declaration whose name is also bound by def / class / import in that scope, or is not
-       bound at module level; a global declaration at module level    (block_ok, module_ok)
-     - lambda; walrus inside a comprehension                          (expr_ok)
-     - a comprehension / walrus in a position rope's visitors do not descend into: return value, for
-       iterable, with items, except type, augmented / annotated assignment, assignment and del targets,
-       comprehension conditions                                       (simple_expr)
-     - a comprehension / walrus in a position rope attaches to the wrong scope: decorators, defaults,
-       annotations, base classes, the first iterable of a comprehension, and the value of an assignment
-       inside a method (visited a second time on behalf of the class)  (simple_expr, ci_simple)
+   construction departs from CPython.  THE BOUNDARY, clause by clause; every clause that excludes a real
+   departure names the open finding (findings.d/C15.json) whose replay is the witness of the [_refuted]
+   theorem in coq/Props/C15.v, and the structural signature harness/c15.py attributes failures to:
+
+     clause of the predicate                                   finding / refuted theorem
+     --------------------------------------------------------  ------------------------------------------------
+     param_ok: PKwOnly                                         C15-kwonly-param          C15_kwonly_refuted
+     param_ok: PPosOnly                                        C15-posonly-param         C15_posonly_refuted
+     frag_stmt SNonlocal = false                               C15-nonlocal              C15_nonlocal_refuted
+     block_ok, 1st conjunct (bound only by aug. assign / del)  C15-aug-or-del-only-binding  C15_augassign_only_refuted
+     block_ok, 2nd and 3rd conjunct (global name rebound by
+       def/class/import, or not bound at module level)         C15-global-declaration-not-honoured  C15_global_not_honoured_refuted
+     in_fragment_C15, last conjunct (global at module level)   C15-module-level-global-unbound  C15_module_level_global_refuted
+     expr_ok: ELambda = false                                  C15-lambda-no-scope       C15_lambda_refuted
+     expr_ok false inside comprehensions (ENamed)              C15-walrus-in-comprehension  C15_walrus_in_comprehension_refuted
+     simple_expr for: return value, for target / iterable,
+       with items, except type, augmented / annotated
+       assignment, assignment targets, comprehension
+       conditions                                              C15-unvisited-expression  C15_unvisited_expression_refuted
+     simple_expr for: decorators, defaults, annotations,
+       return annotation, base classes, the first iterable of
+       a comprehension; ci_simple (values assigned in methods) C15-misattached-expression  C15_misattached_expression_refuted
+     query_ok, class clause (inherited / instance attribute)   C15-class-inherited-attribute, C15-class-self-attribute
+     query_ok, comprehension clause                            C15-comprehension-in-class
+     (layout, Layout.v: comp_end_ok)                           C15-comprehension-extent  C15_comprehension_extent_refuted
+
+   CONSERVATIVE exclusions (rope agrees with CPython there, checked with the oracle; the predicate is kept as it
+   is because C02 / C01 / C20 are proved against it):
+     - del targets must be [simple_expr] although rope's generic visit finds comprehensions / walrus inside
+       subscripts of del targets exactly as CPython does;
+     - a global statement at module level is excluded even when the module binds the name (only the unbound
+       case departs);
+     - a lambda is excluded wherever it occurs (rope never creates its scope, so the trees always differ).
+   Constructs the syntax cannot express (match, async, yield / await, type parameters) are outside PyF.
+
    The lookup theorem has one more, per-query, exclusion ([query_ok]): looking up from a class body a
    name that is only an inherited or instance attribute of that class, and looking up from a comprehension
    written directly in a class body a name that is an attribute of the class. *)
